@@ -15,6 +15,7 @@ TECH = {
  "C11": "static analysis: single invocation site of the derivative closure and control dependence of counting/recursion on the shared consumer counter",
  "C12": "static analysis: field-by-field provenance of Clone, MIR scan for re-seated shared slots, children-by-clone at every attachment site, destructor scan, equality field set",
  "C13": "static analysis: dataflow of the value stored over each parameter in Optimizer::update (fresh constructor, same dimensions, tracked) and order/subset agreement of its producer and consumer traversals",
+ "C14": "static analysis: provenance of the parameters installed by update, optimizer state inventory (interior mutability), retained-slot / static inventory of Model, layers and optimizers",
  "C16": "static analysis: constructor funnel + dominating assertions, no later write (MIR), equality reads exactly dimensions and values",
  "C17": "static analysis: linearity type system (Z/L/C/N) over backward closures and the engine's delta path; default-seed provenance",
  "C18": "static analysis: ownership-edge inventory over ADT field types, MIR writers of the edge list, closure captures, retained slots",
@@ -28,7 +29,6 @@ NA = [
  ("C05", "numeric result of shape derivation plus a triple loop over runtime sizes; not decidable from code shape"),
  ("C06", "numeric result of three composed index permutations over runtime sizes; not decidable from code shape"),
  ("C07", "numeric results of reductions and element maps; its single structural clause (reshape refuses a count mismatch) is decided under C16's constructor funnel"),
- ("C14", "numeric state of parameters after arbitrary training histories; its structural mechanisms (fresh parameters, single retained output) are decided under C13 and C18"),
  ("C15", "numeric formulas of layers/costs; any static rule would freeze the argument lists of four functions (a brittle proxy)"),
 ]
 
